@@ -161,24 +161,24 @@ class Runner:
         (copyfail; for memory-pressure streams the entry count after a store made under low memory)"""
         rc, out, err = self.c.run_lines(self.hbin, cases, [str(shm)])
         ann = []
-        low_prev = False
+        proc = False
         for k, cs in enumerate(cases):
             o = out[k] if k < len(out) else ""
             w = o.split()
-            low = "lowmem" in w
             if cs.startswith("new "):
-                low_prev = False
+                proc = cs.split()[1] == "process"
             if cs.startswith("store "):
                 extra = []
                 if "copyfail" in w:
                     extra.append("copyfail")
-                elif keys_oracle and (low or low_prev) and "|" in w:
+                elif keys_oracle and proc and "|" in w:
+                    # small segment: check_limits may have evicted because the allocator reported low memory, or the
+                    # insertion may have failed and cleared the cache; the entry count after the store is the oracle
                     keys = int(w[w.index("|") + 1])
                     extra.append("cleared" if keys == 0 else f"keys={keys}")
                 if extra:
                     cs = cs + " " + " ".join(extra)
-            low_prev = low
-            if low:
+            if "lowmem" in w:
                 self.lowmem_lines += 1
             ann.append(cs)
         return ann
@@ -249,3 +249,137 @@ class Runner:
             if chunk > 1:
                 chunk //= 2
         return h
+
+
+# ------------------------------------------------------------------ C08 generators
+
+FAR_PAST = -(2 ** 62)
+
+
+def census_lines(keys):
+    """`stats`, then fetch every key at a clock value before every deadline (nothing counts as expired)"""
+    return ["stats"] + [f"fetch {FAR_PAST} {hx(k)}" for k in keys]
+
+
+def evict_history(rng, backend, limit, shm, nops):
+    """more keys than the limit, deadlines around the clock so that expired-first and LRU-tail evictions interleave"""
+    nkeys = limit + rng.choice((1, 2, limit, 2 * limit + 1))
+    keys = [b"e%d" % i for i in range(nkeys)]
+    trigs = [b"t0", b"t1", keys[0]]
+    now = 1000
+    h = [new_line(backend, limit, shm)]
+    for _ in range(nops):
+        c = rng.random()
+        if c < 0.4:
+            now += rng.randrange(0, 3)
+        elif c < 0.43:
+            now += rng.randrange(5, 30)
+        elif c < 0.46:
+            now -= rng.randrange(1, 4)
+        r = rng.random()
+        if r < 0.5:
+            k = rng.choice(keys)
+            ts = [rng.choice(trigs) for _ in range(rng.choice((0, 0, 1, 2)))]
+            d = now + rng.choice((-2, -1, 0, 1, 1, 2, 3, 3, 6, 50))
+            h.append(f"store {now} {hx(k)} {hx(bytes([rng.randrange(256)]))} {trig_word(ts)} {d} -")
+        elif r < 0.85:
+            h.append(f"fetch {now} {hx(rng.choice(keys))}")
+        elif r < 0.9:
+            h.append("rise " + rng.choice(trigs).hex())
+        elif r < 0.95:
+            h.append(f"remove {hx(rng.choice(keys))}")
+        elif r < 0.97:
+            h.append("clear")
+        else:
+            h.append("stats")
+    return h + census_lines(keys)
+
+
+def exhaustive_evict(depth, limits, backends, shm, stride=1, offset=0):
+    """all sequences over: store a/b/c with a far or a near deadline, fetch a/b/c, tick (+2)"""
+    K = [b"a", b"b", b"c"]
+    ops = [("store", k, d) for k in K for d in (50, 1)] + [("fetch", k) for k in K] + [("tick",)]
+    n = len(ops)
+    hists = []
+    for code in range(offset, n ** depth, stride):
+        seq = []
+        c = code
+        for _ in range(depth):
+            seq.append(ops[c % n]); c //= n
+        for backend in backends:
+            for limit in limits:
+                now = 1000
+                h = [new_line(backend, limit, shm)]
+                for o in seq:
+                    if o[0] == "tick":
+                        now += 2
+                        h.append("stats")
+                    elif o[0] == "store":
+                        h.append(f"store {now} {hx(o[1])} {hx(o[1])} - {now + o[2]} -")
+                    else:
+                        h.append(f"fetch {now} {hx(o[1])}")
+                hists.append(h + census_lines(K))
+    return hists
+
+
+def pressure_history(rng, limit, shm, nops):
+    """process-shared back-end in a small segment: values up to beyond the per-item share, explicit generations
+    (an allocation failure inside the locked section leaves the generation counter in either state)"""
+    nkeys = rng.choice((4, 12, 40))
+    keys = [b"p%d" % i for i in range(nkeys)]
+    trigs = [b"t0", b"t1", b"t2"]
+    now = 1000
+    g = 0
+    h = [new_line("process", limit, shm)]
+    sizes = [0, 10, 16, 100, 1000, 4000, shm // 64, shm // 40, shm // 21, shm // 19, shm // 9, shm // 3, shm, 4 * shm]
+    for _ in range(nops):
+        now += rng.randrange(0, 3)
+        r = rng.random()
+        if r < 0.6:
+            k = rng.choice(keys)
+            ts = [rng.choice(trigs) for _ in range(rng.choice((0, 1, 2)))]
+            d = now + rng.choice((-1, 0, 2, 5, 100))
+            n = rng.choice(sizes)
+            if n > 1000:
+                n = max(0, n + rng.randrange(-40, 40))
+            g += 1
+            h.append(f"store {now} {hx(k)} r{rng.randrange(256):02x}x{n} {trig_word(ts)} {d} {g}")
+        elif r < 0.85:
+            h.append(f"fetch {now} {hx(rng.choice(keys))}")
+        elif r < 0.9:
+            h.append("rise " + rng.choice(trigs).hex())
+        elif r < 0.96:
+            h.append(f"remove {hx(rng.choice(keys))}")
+        else:
+            h.append("clear")
+    return h + census_lines(keys)
+
+
+def check_census(cases, raw, hist_of):
+    """direct judge of `stats_match_history` on the implementation: at the census block the number of keys that can
+    be fetched equals the reported key count and the sizes of their trigger sets add up to the trigger count.
+    returns list of (history index, message)"""
+    bad = []
+    i = 0
+    n = len(cases)
+    while i < n:
+        if cases[i] == "stats" and i + 1 < n and cases[i + 1].startswith(f"fetch {FAR_PAST} "):
+            w = raw[i].split() if i < len(raw) else []
+            j = i + 1
+            hits = links = 0
+            while j < n and cases[j].startswith(f"fetch {FAR_PAST} "):
+                o = raw[j].split() if j < len(raw) else []
+                if o and o[0] == "hit":
+                    hits += 1
+                    links += 0 if o[2] == "-" else len(o[2].split(","))
+                j += 1
+            try:
+                keys, tr = int(w[w.index("|") + 1]), int(w[w.index("|") + 2])
+                if (keys, tr) != (hits, links):
+                    bad.append((hist_of[i], f"stats reports {keys} keys / {tr} triggers but {hits} keys with {links} trigger links can be fetched"))
+            except (ValueError, IndexError):
+                bad.append((hist_of[i], "unparsable stats line " + " ".join(w)))
+            i = j
+        else:
+            i += 1
+    return bad
